@@ -442,6 +442,12 @@ func (b *tb) condition(parent antlr.ParserRuleContext, cd dCond, idx int) *parse
 		b.names[keyOf("param", idx, j)] = b.add(pn, parser.OpenFGAParserIDENTIFIER, p.name)
 		b.span(pn, pfrom)
 		pc.AddChild(pn)
+		if b.omit == "param-colon-type" {
+			// `condition c(x) {`: a parameter name and nothing else
+			b.span(pc, pfrom)
+			c.AddChild(pc)
+			continue
+		}
 		b.add(pc, parser.OpenFGAParserCOLON, ":")
 		b.ws(pc)
 		if b.omit == "param-type" {
